@@ -14,7 +14,7 @@ std::vector<W> base_weights() {
             {"DEL_V", 3}, {"DEL_E", 3}, {"DEL_F", 3}, {"DEL_C", 4}, {"SWAP_V", 2}, {"SWAP_E", 2}, {"SWAP_F", 2}, {"SWAP_C", 2},
             {"GC", 3}, {"MODE", 2}, {"BU", 2}, {"CLEAR", 0}, {"SET_E", 1}, {"SET_F", 1}, {"SET_C", 1},
             {"P_REQUEST", 3}, {"P_CREATE_PRIVATE", 1}, {"P_WRITE", 6}, {"P_FILL", 1}, {"P_DROP", 1}, {"P_COPY", 1},
-            {"BAD_FACE", 0}, {"BAD_CELL", 0}, {"FORK_COPY", 0}, {"FORK_ASSIGN", 0}, {"FORK_SELF", 0}, {"DESTROY", 0}, {"USE", 0},
+            {"BAD_FACE", 0}, {"BAD_CELL", 0}, {"FORK_COPY", 0}, {"FORK_ASSIGN", 0}, {"FORK_CROSS", 0}, {"P_POS_PERSIST", 0}, {"FORK_SELF", 0}, {"DESTROY", 0}, {"USE", 0},
             {"P_CREATE_SHARED", 0}, {"P_CREATE_PERSISTENT", 0}, {"P_GET", 0}, {"P_EXISTS", 0}, {"P_SET_SHARED", 0}, {"P_SET_PERSISTENT", 0},
             {"P_SET_NAME", 0}, {"P_MOVE", 0}, {"P_CLEAR_KIND", 0}, {"P_CLEAR_ALL", 0}, {"COLLAPSE", 0}, {"RESTART", 0}, {"ROUNDTRIP", 0}, {"FAULT_LOAD", 0}, {"SWEEP", 0}, {"SET_POS", 0}, {"BIG", 0}, {"OPEN_CELL", 0}, {"OBSERVE", 1}};
 }
@@ -37,12 +37,12 @@ struct HistWorld : World {
         if (prop == "C14") p.kernel = "poly";
         // per-property workload emphasis
         if (prop == "C02") { mulw(w, "DEL_", 3); setw(w, "MODE", 5); setw(w, "CLEAR", 1); setw(w, "BU", 3); }
-        if (prop == "C03") { mulw(w, "P_", 2); mulw(w, "DEL_", 2); mulw(w, "SWAP_", 2); setw(w, "GC", 5); setw(w, "CLEAR", 1); setw(w, "P_CREATE_PERSISTENT", 1); setw(w, "P_CREATE_SHARED", 1); }
+        if (prop == "C03") { if (p.kernel == "tet") setw(w, "COLLAPSE", 5); mulw(w, "P_", 2); mulw(w, "DEL_", 2); mulw(w, "SWAP_", 2); setw(w, "GC", 5); setw(w, "CLEAR", 1); setw(w, "P_CREATE_PERSISTENT", 1); setw(w, "P_CREATE_SHARED", 1); }
         if (prop == "C04") { mulw(w, "DEL_", 3); setw(w, "GC", 12); setw(w, "MODE", 5); }
         if (prop == "C09") { setw(w, "SET_F", 0); setw(w, "SET_C", 0); setw(w, "ADD_TET", 18); setw(w, "BU", 3); setw(w, "DEL_C", 6); setw(w, "DEL_F", 4); }
         if (prop == "C11") { setw(w, "BAD_FACE", 8); setw(w, "BAD_CELL", 8); mulw(w, "ADD_", 2); setw(w, "BU", 3); }
         if (prop == "C12") { setw(w, "BU", 12); mulw(w, "DEL_", 2); mulw(w, "SWAP_", 2); setw(w, "GC", 5); setw(w, "MODE", 4); }
-        if (prop == "C13") { setw(w, "FORK_COPY", 8); setw(w, "FORK_ASSIGN", 8); setw(w, "FORK_SELF", 2); setw(w, "DESTROY", 3); setw(w, "USE", 8);
+        if (prop == "C13") { setw(w, "FORK_COPY", 8); setw(w, "FORK_ASSIGN", 8); setw(w, "FORK_CROSS", 5); setw(w, "P_POS_PERSIST", 2); setw(w, "FORK_SELF", 2); setw(w, "DESTROY", 3); setw(w, "USE", 8);
                              setw(w, "P_CREATE_PERSISTENT", 4); setw(w, "P_CREATE_SHARED", 2); mulw(w, "P_W", 2); }
         if (prop == "C14") { mulw(w, "ADD_", 1, 4); mulw(w, "DEL_", 1, 3); mulw(w, "SWAP_", 1, 2);
                              for (const char *k : {"P_REQUEST", "P_CREATE_SHARED", "P_CREATE_PERSISTENT", "P_CREATE_PRIVATE", "P_GET", "P_EXISTS", "P_SET_SHARED", "P_SET_PERSISTENT"}) setw(w, k, 8);
@@ -51,7 +51,7 @@ struct HistWorld : World {
         if (prop == "C15") { setw(w, "COLLAPSE", 8); mulw(w, "DEL_", 2); setw(w, "BAD_CELL", 2); setw(w, "BAD_FACE", 2); }
         if (prop == "C16") { setw(w, "ADD_HEX", 16); mulw(w, "DEL_", 2); setw(w, "BAD_CELL", 2); setw(w, "BAD_FACE", 2); }
         if (prop == "C17") { mulw(w, "SWAP_", 6); mulw(w, "DEL_", 2); setw(w, "BU", 3); }
-        if (prop == "C06") { setw(w, "ROUNDTRIP", 14); setw(w, "RESTART", 2); setw(w, "P_CREATE_PERSISTENT", 5); setw(w, "SET_POS", 3); setw(w, "BIG", 1); setw(w, "OPEN_CELL", 2); setw(w, "GC", 6); mulw(w, "SWAP_", 1, 2); setw(w, "BU", 0); }
+        if (prop == "C06") { setw(w, "ROUNDTRIP", 14); setw(w, "RESTART", 2); setw(w, "P_CREATE_PERSISTENT", 5); setw(w, "SET_POS", 3); setw(w, "BIG", 1); setw(w, "OPEN_CELL", 2); setw(w, "P_POS_PERSIST", 1); setw(w, "GC", 6); mulw(w, "SWAP_", 1, 2); setw(w, "BU", 0); }
         if (prop == "C07") { setw(w, "FAULT_LOAD", 30); setw(w, "P_CREATE_PERSISTENT", 4); setw(w, "GC", 4); setw(w, "BU", 0); mulw(w, "SWAP_", 0); setw(w, "SET_E", 0); setw(w, "SET_F", 0); setw(w, "SET_C", 0); }
         if (prop == "C18") { setw(w, "SWEEP", 24); setw(w, "P_CREATE_PERSISTENT", 4); setw(w, "GC", 4); setw(w, "BU", 0); mulw(w, "SWAP_", 0); setw(w, "SET_E", 0); setw(w, "SET_F", 0); setw(w, "SET_C", 0); }
         if (prop == "C01") setw(w, "RESTART", 1);
